@@ -336,10 +336,10 @@ def search(ctx, rng, budget):
                 origin.append(None)
             elif order == 0 and r < 0.5:
                 # fractional origin away from ties, rounded origin inside the image
-                v = int(rng.integers(-k, k)) + float(rng.uniform(-0.49, 0.49))
-                if (v + k if v < 0 else v) > k - 0.51 or -0.5 <= v < 0:
-                    v = float(int(v))
-                origin.append(v)
+                w = int(rng.integers(0, k)) + float(rng.uniform(-0.49, 0.49))
+                if w < 0 or w > k - 0.51:
+                    w = float(round(w)) if 0 <= round(w) < k else 0.0
+                origin.append(w if rng.random() < 0.5 or w == 0 else w - k)
             else:
                 v = int(rng.integers(-k, k))
                 origin.append(v if rng.random() < 0.6 else float(v))
@@ -480,7 +480,7 @@ def run(ctx):
     ctx.cov.update(traces_validated_against_impl=n_ok, correspondence_cases=len(cases),
                    correspondence_disagreements=len(bad), input_distribution=dist)
     broken = (not pr['ok']) or bad or errors
-    budget = (60 if ctx.quick else 400) * (4 if broken else 1)
+    budget = (300 if ctx.quick else 3000) * (4 if broken else 1)
     hits, n_eval, n_distinct = search(ctx, rng, budget)
     ctx.cov.update(evaluations=n_eval + len(cases), distinct_nontrivial=n_distinct,
                    rule='search: (1) whole-pixel clauses on random integer-valued images, shapes 1..40 (+3 of several '
@@ -497,9 +497,9 @@ def run(ctx):
                    exhaustive=(not ctx.quick))
     new, seen = 0, set()
     for h in hits:
-        if (h.key, h.clause) in seen:
+        if h.key in seen:
             continue
-        seen.add((h.key, h.clause))
+        seen.add(h.key)
         if ctx.report_hit(h):
             new += 1
     if not pr['ok'] and new == 0:
